@@ -47,7 +47,20 @@ def judge_tokens(job):
     if text is None or [k["ty"] for k in realsyn.lex(text)] != types:
         return None
     obs = realsyn.loads_syntax_stage(text)
-    return text, list(obs), classify_case(None, text, types, expect, obs, realsyn)
+    desc = classify_case(None, text, types, expect, obs, realsyn)
+    if desc is None and via_file(text):
+        # the same script in a (UTF-8) file, through blackbird.load
+        obs2 = realsyn.loads_syntax_stage(text, via="load")
+        d2 = classify_case(None, text, types, expect, obs2, realsyn)
+        if d2:
+            return text, list(obs2), "load(file): " + d2
+    return text, list(obs), desc
+
+
+def via_file(text):
+    """which cases are also run through blackbird.load on a file: every text with a non-ASCII character, and one in eight of the rest"""
+    import zlib
+    return any(ord(ch) > 127 for ch in text) or zlib.crc32(text.encode("utf-8")) % 8 == 0
 
 
 def fingerprint(desc):
@@ -89,7 +102,7 @@ def run(rep, tier, seed):
                 continue
             types = c["w"] + [t]
             expect = -1 if t in acc else (len(types) if t in nxt else len(c["w"]))
-            jobs.append((types, expect, rng.randrange(3)))
+            jobs.append((types, expect, rng.randrange(4)))
     res = realrun.pmap(judge_tokens, jobs, chunk=500)
     for (types, expect, _), rr in zip(jobs, res):
         if rr is None:
@@ -135,7 +148,7 @@ def run(rep, tier, seed):
     for op, s in cases:
         if any(t in g.skipped for t in s):
             continue
-        text = render.render_tokens(g, s, variant=rng.randrange(3))
+        text = render.render_tokens(g, s, variant=rng.randrange(4))
         if text is None or [k["ty"] for k in realsyn.lex(text)] != s:
             continue
         rendered.append((op, s, text))
@@ -147,6 +160,11 @@ def run(rep, tier, seed):
         n += 1
         kinds[op] = kinds.get(op, 0) + 1
         desc = classify_case(rep, text, s, expect, res, realsyn)
+        if desc is None and via_file(text):
+            res2 = realsyn.loads_syntax_stage(text, via="load")
+            d2 = classify_case(rep, text, s, expect, res2, realsyn)
+            if d2:
+                res, desc = res2, "load(file): " + d2
         if desc:
             nbad += 1
             rep.violation(desc + " | mutation=%s text=%r" % (op, text[:300]),
@@ -170,5 +188,9 @@ def replay(path):
     d = json.load(open(path))
     res = realsyn.loads_syntax_stage(d["text"])
     desc = classify_case(None, d["text"], d["types"], d["expect"], res, realsyn)
+    if desc is None:
+        res = realsyn.loads_syntax_stage(d["text"], via="load")
+        desc = classify_case(None, d["text"], d["types"], d["expect"], res, realsyn)
+        desc = desc and "load(file): " + desc
     print("text=%r\nexpected first bad token=%s\nobserved=%s\n%s" % (d["text"], d["expect"], res, desc or "agrees now"))
     return 1 if desc else 0
